@@ -33,9 +33,9 @@ class RndChooser:
         if k == 0:
             return self.choice([0, 1, (1 << bits) - 1, 1 << (bits - 1), (1 << (bits - 1)) - 1])
         if k == 1:
-            return self.r.getrandbits(8)
+            return self.r.getrandbits(min(8, bits))
         if k == 2:
-            return self.r.getrandbits(16)
+            return self.r.getrandbits(min(16, bits))
         return self.r.getrandbits(bits)
 
 
@@ -64,7 +64,7 @@ class HypChooser:
     def word(self, bits):
         return self.draw(st.one_of(
             st.sampled_from([0, 1, (1 << bits) - 1, 1 << (bits - 1), (1 << (bits - 1)) - 1]),
-            st.integers(0, 255), st.integers(0, 0xffff), st.integers(0, (1 << bits) - 1)))
+            st.integers(0, min(255, (1 << bits) - 1)), st.integers(0, min(0xffff, (1 << bits) - 1)), st.integers(0, (1 << bits) - 1)))
 
 
 def composite_from(fn):
